@@ -1,3 +1,51 @@
-(* Props/C08.v -- property theorems only *)
-From Coq Require Import ZArith.
-From Falcon Require Import Base.Res IL.Const Mem.PagedTypes Mem.Paged Mem.PagedSpec.
+(* Props/C08.v -- property theorems only (C08: paged memory is a byte-addressed array with
+   independent clones).  Model: Mem/Paged.v (V = il::Constant); specification: Mem/PagedSpec.v. *)
+From Coq Require Import ZArith List Bool.
+From Falcon Require Import Base.Res IL.Const Mem.PagedTypes Mem.Paged Mem.PagedSpec Mem.PagedCells Mem.PagedProofs.
+Local Open Scope Z_scope.
+
+(* widths 0 or not multiples of 8 are rejected, by store and by load *)
+Theorem reject_bad_width : forall (m : @mem const) a v bits,
+  (cbits v mod 8 <> 0 \/ cbits v = 0 -> Paged.store COps m a v = Err ECustom) /\
+  (bits mod 8 <> 0 \/ bits = 0 -> load COps m a bits = Err ECustom).
+Proof. intros. split; [apply store_bad_width|apply load_bad_width]. Qed.
+Print Assumptions reject_bad_width.
+
+(* equality is reflexive: a memory equals its unmodified clone (a clone is the same value in the model) *)
+Theorem eq_refl_clone : forall (m : @mem const), mem_eqb COps m m = true.
+Proof. exact mem_eqb_refl. Qed.
+Print Assumptions eq_refl_clone.
+
+(* equality implies identical results for every load *)
+Theorem eq_implies_same_loads : forall (m1 m2 : @mem const), mem_eqb COps m1 m2 = true ->
+  forall a bits, load COps m1 a bits = load COps m2 a bits.
+Proof. exact eq_same_loads. Qed.
+Print Assumptions eq_implies_same_loads.
+
+(* permissions set on a range (below 2^64, shorter than 2^63) are reported for every address in it *)
+Theorem perm_range : forall (m m' : @mem const) a len p,
+  0 <= a -> 0 <= len < 2^63 -> a + len <= 2^64 ->
+  set_permissions m a len p = Ok m' -> forall x, a <= x < a + len -> permissions m' x = Some p.
+Proof. exact perm_range_l. Qed.
+Print Assumptions perm_range.
+
+(* addresses on pages whose permissions were never set report the backing's *)
+Theorem perm_default_backing : forall (m : @mem const) x,
+  pperm m (page_addr x) = None -> permissions m x = ob_perm (m_back m) x.
+Proof. exact perm_default_backing_l. Qed.
+Print Assumptions perm_default_backing.
+
+(* stores never change reported permissions *)
+Theorem store_keeps_perms : forall (m : @mem const) a v m',
+  Paged.store COps m a v = Ok m' -> forall x, permissions m' x = permissions m x.
+Proof. exact store_keeps_perms_l. Qed.
+Print Assumptions store_keeps_perms.
+
+(* cell level (unbounded addresses): the three-phase store preserves the representation invariant
+   and is "write these bytes, leave everything else" on the byte abstraction *)
+Theorem cells_store_refines : forall e c a v back, Inv c -> wfv v ->
+  Inv (cstore e c a v) /\
+  forall x, abs e back (cstore e c a v) x =
+            if (a <=? x) && (x <? a + vk v) then Some (bo e v (x - a)) else abs e back c x.
+Proof. exact store_refines. Qed.
+Print Assumptions cells_store_refines.
